@@ -29,6 +29,13 @@ func WasPutToCache(c fiber.Ctx) bool {
 	return c.Locals(localsKeyWasPutToCache) != nil
 }
 
+// delResponseHeaders removes every header named in headers from the response of c.
+func delResponseHeaders(c fiber.Ctx, headers map[string][]string) {
+	for header := range headers {
+		c.RequestCtx().Response.Header.Del(header)
+	}
+}
+
 func New(config ...Config) fiber.Handler {
 	// Set default config
 	cfg := configDefault(config...)
@@ -49,9 +56,11 @@ func New(config ...Config) fiber.Handler {
 
 			_ = c.Status(res.StatusCode)
 
+			// The stored values replace whatever earlier middleware set for these headers. Every stored name is
+			// deleted before the first value is added: fasthttp's Del moves the last header line into the place of
+			// a deleted one, so a Del between the Adds could change the order of values that were restored already.
+			delResponseHeaders(c, res.Headers)
 			for header, vals := range res.Headers {
-				// The stored values replace whatever earlier middleware set for this header
-				c.RequestCtx().Response.Header.Del(header)
 				for _, val := range vals {
 					c.RequestCtx().Response.Header.Add(header, val)
 				}
